@@ -18,6 +18,7 @@ TRUSTED = ["numpy long double trigonometry", "numpy.linalg.cholesky and numpy.li
 ASSUMPTIONS = ["Generator: deviates below the first tabulated cumulative value are not constrained",
                "Cholesky: the arrangement of the drawn deviates into samples is not constrained, only that every sample is mean + L z with the z's being exactly the deviates handed out",
                "random_indices: unique=True is driven with nrand <= imax"]
+THOROUGH_ROUNDS = 12      # the thorough tier runs the generator over this many derived seeds
 REQUIRED = {"quick": {"C19.randcap": 600, "C19.randsphere": 400, "C19.generator": 400, "C19.cholesky": 300,
                       "C19.random_indices": 300, "C19.repro": 300},
             "thorough": {"C19.randcap": 12000, "C19.randsphere": 8000, "C19.generator": 6000, "C19.cholesky": 6000,
